@@ -143,6 +143,18 @@ P = {
             "trusted: vpmon/ref/sql_parse.py precedence table; refusals with a library "
             "exception are outside the SQL-expressible fragment",
             "DESIGN.md 2/C09"),
+    "C01": ("reference-model monitor: real SQLite executes the dialect's WHERE text on "
+            "adversarial rows, selected ids compared with a three-valued OData reference "
+            "evaluator (UNSPEC rows excluded); metamorphic min/full parenthesisation pairs",
+            "Exploration by runtime monitoring: typed Bool-rooted filters over every operator "
+            "and function of the SQLite dialect, depth <= 4 (quick) / 6 (thorough), each executed "
+            "as SELECT id FROM t WHERE <text> on an in-memory SQLite holding the cross product "
+            "of adversarial per-column domains (<= 400 rows); the set of returned ids must equal "
+            "the rows the reference evaluator marks TRUE, rows it marks UNSPEC (behaviour not "
+            "pinned by the property) are excluded and counted. Known findings are keyed by "
+            "mechanism flags raised on the mismatching rows only.",
+            "trusted: vpmon/ref/odata_eval.py, SQLite 3.40.1 as execution oracle",
+            "DESIGN.md 2/C01"),
 }
 
 NOT_BUILT_REASON = "check not built yet in this round (design in DESIGN.md section 2); not claimed"
